@@ -77,6 +77,7 @@ impl Function {
         match *self {
             Function::PostScript { ref domain, .. } => domain.len() / 2,
             Function::Sampled(ref f) => f.input.len(),
+            Function::Interpolated(_) => 1,
             _ => panic!()
         }
     }
@@ -84,6 +85,7 @@ impl Function {
         match *self {
             Function::PostScript { ref range, .. } => range.len() / 2,
             Function::Sampled(ref f) => f.output.len(),
+            Function::Interpolated(ref parts) => parts.len(),
             _ => panic!()
         }
     }
@@ -103,6 +105,9 @@ impl FromDict for Function {
                     _ => bail!("unknown dimensions")
                 };
                 let mut parts = Vec::with_capacity(n_dim);
+                if raw.domain.len() < 2 {
+                    bail!("function domain has {} entries (2 required)", raw.domain.len());
+                }
                 let input_range = (raw.domain[0], raw.domain[1]);
                 for dim in 0 .. n_dim {
                     let output_range = (
@@ -137,7 +142,7 @@ impl Object for Function {
                         let s = std::str::from_utf8(&data)?;
                         let func = PsFunc::parse(s)?;
                         let info = stream.info.info;
-                        Ok(Function::PostScript { func, domain: info.domain, range: info.range.unwrap() })
+                        Ok(Function::PostScript { func, domain: info.domain, range: try_opt!(info.range) })
                     },
                     0 => {
                         let info = stream.info.info;
